@@ -28,6 +28,7 @@ import (
 	"reflect"
 
 	"github.com/kstenerud/go-concise-encoding/configuration"
+	"github.com/kstenerud/go-concise-encoding/internal/common"
 )
 
 type recordTypeKey func(*Context, Builder)
@@ -47,6 +48,7 @@ type Context struct {
 
 	chunkedData             []byte
 	chunkRemainingLength    uint64
+	arrayElementBitWidth    int
 	moreChunksFollow        bool
 	arrayCompletionCallback func(*Context)
 
@@ -158,7 +160,8 @@ func (_this *Context) TryBuildFromCustomText(builder Builder, customType uint64,
 	}
 }
 
-func (_this *Context) BeginArray(arrayCompletionCallback func(*Context)) {
+func (_this *Context) BeginArray(elementBitWidth int, arrayCompletionCallback func(*Context)) {
+	_this.arrayElementBitWidth = elementBitWidth
 	_this.arrayCompletionCallback = arrayCompletionCallback
 	_this.chunkedData = _this.chunkedData[:0]
 }
@@ -166,7 +169,8 @@ func (_this *Context) ContinueMultiComponentArray(arrayCompletionCallback func(*
 	_this.arrayCompletionCallback = arrayCompletionCallback
 }
 func (_this *Context) BeginArrayChunk(length uint64, moreChunksFollow bool) {
-	_this.chunkRemainingLength = length
+	// The chunk length is in elements, but the data arrives (and is counted) in bytes.
+	_this.chunkRemainingLength = common.ElementCountToByteCount(_this.arrayElementBitWidth, length)
 	_this.moreChunksFollow = moreChunksFollow
 	if !_this.moreChunksFollow && _this.chunkRemainingLength == 0 {
 		_this.arrayCompletionCallback(_this)
